@@ -20,6 +20,11 @@
 (*              format keeps order, as a multiset otherwise                 *)
 (*     colors - every vertex colour is unchanged                            *)
 (***************************************************************************)
+(*  kind "big" (files larger than the decoders' capacity hints): [id, site, *)
+(*     nin, nout, same, err]                                               *)
+(*     count  - as many faces come back as were written (2^16 + k faces),  *)
+(*              each equal to the one written at that position              *)
+(***************************************************************************)
 EXTENDS Integers, Sequences, FiniteSets, TLC, Json
 
 Recs == ndJsonDeserialize("records.ndjson")
@@ -31,7 +36,11 @@ SameBag(s, t) == Len(s) = Len(t) /\ \A i \in 1..Len(s) : Count(s, s[i]) = Count(
 Expected == [i \in 1..Len(R.faces) |-> [k \in 1..Len(R.faces[i]) |-> R.cls[R.faces[i][k]]]]
 
 Holds(c) ==
-    IF R.kind = "fault" THEN
+    IF R.kind = "big" THEN
+        CASE c = "err" -> R.err = ""
+          [] c = "count" -> R.err # "" \/ (R.nout = R.nin /\ R.same)
+          [] OTHER -> TRUE
+    ELSE IF R.kind = "fault" THEN
         CASE c = "panic" -> R.outcome \notin {"panic", "crash"}
           [] c = "hang"  -> R.outcome # "hang" /\ R.rows <= R.len + 2
           [] c = "alloc" -> R.noisy \/ R.outcome \in {"panic", "hang", "crash"} \/ R.allockb <= 4096 + R.len
@@ -42,7 +51,7 @@ Holds(c) ==
           [] c = "faces"  -> R.err # "" \/ IF R.ordered THEN R.out = Expected ELSE SameBag(R.out, Expected)
           [] c = "colors" -> R.err # "" \/ R.colors
           [] OTHER -> TRUE
-Clauses == {"panic", "hang", "alloc", "valid", "err", "faces", "colors"}
+Clauses == {"panic", "hang", "alloc", "valid", "err", "faces", "colors", "count"}
 Fails == {c \in Clauses : ~Holds(c)}
 Init == rec \in 1..Len(Recs) /\ done = FALSE
 Next == /\ ~done /\ done' = TRUE /\ UNCHANGED rec
